@@ -2208,3 +2208,46 @@ package sarama
 //@   loop assemble: invariant[subscribed +known +nonempty] forall t string, k int :: haskey(mbt, t) && 0 <= k && k < len(mbt[t]) ==> exists j :: 0 <= j && j < len(members[mbt[t][k]].Topics) && members[mbt[t][k]].Topics[j] == t
 //@   ensures[plan_returned] err == nil && plan != nil
 //@   nosafety
+
+// ---------------------------------------------------------------------------------------------
+// brokerProducer: the would-overflow test guards every add (C16). A message is added to the worker's buffer only if
+// the admission test says it fits, or the buffer has just been rolled over and is empty (a single message may exceed
+// a limit on its own - the dispatcher has already rejected messages larger than MaxMessageBytes).
+//@ func (bp *brokerProducer) handleResponse(response) trusted
+//@   modifies bp.buffer, bp.timer, bp.timerFired, bp.closing, produceSet.bufferBytes, produceSet.bufferCount, produceSet.msgs, produceSet.swept, partitionSet.bufferBytes, partitionSet.msgs, ProducerMessage.disp, ProducerMessage.errEvents, ProducerMessage.succEvents, ProducerMessage.flags, ProducerMessage.retries, ProducerMessage.sequenceNumber, ProducerMessage.producerEpoch, ProducerMessage.hasSequence, ProducerMessage.Offset, ProducerMessage.Timestamp, transactionManager.producerEpoch, $wg, maps
+//@   ensures[buffer_well_formed] bp.buffer != nil && 0 <= bp.buffer.bufferBytes && bp.buffer.bufferBytes <= 2305843009213693952 && (forall t string, p int32 :: bp.buffer.msgs[t] != nil && bp.buffer.msgs[t][p] != nil ==> 0 <= bp.buffer.msgs[t][p].bufferBytes && bp.buffer.msgs[t][p].bufferBytes <= 2305843009213693952)
+//@ func (bp *brokerProducer) needsRetry(msg) props C16
+//@   returns e
+//@   requires msg != nil
+//@   modifies nothing
+//@ func (bp *brokerProducer) rollOver() props C16 C01
+//@   requires bp.parent != nil
+//@   ensures[fresh_empty_buffer] bp.buffer != nil && fresh(bp.buffer) && bp.buffer.bufferBytes == 0 && bp.buffer.bufferCount == 0 && bp.buffer.msgs != nil && maplen(bp.buffer.msgs) == 0 && bp.buffer.parent == bp.parent && !bp.timerFired
+//@   modifies bp.timer, bp.timerFired, bp.buffer, map:bp.parent.txnmgr.sequenceNumbers
+//@ func (bp *brokerProducer) waitForSpace(msg, forceRollover) props C16
+//@   returns err
+//@   requires msg != nil && bp.parent != nil && bp.parent.conf != nil && MaxRequestSize >= 10240
+//@   requires 0 <= bsz(msg, 1) && bsz(msg, 1) <= 2305843009213693952 && 0 <= bsz(msg, 2) && bsz(msg, 2) <= 2305843009213693952
+//@   requires bp.buffer != nil && 0 <= bp.buffer.bufferBytes && bp.buffer.bufferBytes <= 2305843009213693952 && (forall t string, p int32 :: bp.buffer.msgs[t] != nil && bp.buffer.msgs[t][p] != nil ==> 0 <= bp.buffer.msgs[t][p].bufferBytes && bp.buffer.msgs[t][p].bufferBytes <= 2305843009213693952)
+//@   ensures[space_or_fresh_buffer] err == nil ==> bp.buffer != nil && ((!!(bp.buffer.bufferBytes + bsz(msg, ite(verAtLeast(bp.buffer.parent.conf.Version, V0_11_0_0), 2, 1)) < MaxRequestSize - 10240 && !(bp.buffer.msgs[msg.Topic] != nil && bp.buffer.msgs[msg.Topic][msg.Partition] != nil && bp.buffer.msgs[msg.Topic][msg.Partition].bufferBytes + bsz(msg, ite(verAtLeast(bp.buffer.parent.conf.Version, V0_11_0_0), 2, 1)) >= bp.buffer.parent.conf.Producer.MaxMessageBytes) && !(bp.buffer.parent.conf.Producer.Flush.MaxMessages > 0 && bp.buffer.bufferCount >= bp.buffer.parent.conf.Producer.Flush.MaxMessages)) && !forceRollover) || (bp.buffer.bufferCount == 0 && bp.buffer.bufferBytes == 0 && maplen(bp.buffer.msgs) == 0))
+//@   ensures[parent_kept] bp.parent == old(bp.parent) && bp.parent.conf == old(bp.parent.conf)
+//@   loop 0: invariant bp.buffer != nil && 0 <= bp.buffer.bufferBytes && bp.buffer.bufferBytes <= 2305843009213693952 && (forall t string, p int32 :: bp.buffer.msgs[t] != nil && bp.buffer.msgs[t][p] != nil ==> 0 <= bp.buffer.msgs[t][p].bufferBytes && bp.buffer.msgs[t][p].bufferBytes <= 2305843009213693952) && bp.parent == old(bp.parent) && bp.parent.conf == old(bp.parent.conf)
+//@   nosafety
+
+// run: one input message per iteration. (The message sizes are those the dispatcher admitted: A-input bound.)
+//@ func (bp *brokerProducer) shutdown() trusted
+//@   modifies bp.buffer, bp.timer, bp.timerFired, bp.closing
+//@ func (bp *brokerProducer) run() props C16
+//@   requires bp.parent != nil && bp.parent.conf != nil && bp.parent.txnmgr != nil && MaxRequestSize >= 10240 && bp.currentRetries != nil
+//@   requires bp.buffer != nil && 0 <= bp.buffer.bufferBytes && bp.buffer.bufferBytes <= 2305843009213693952 && (forall t string, p int32 :: bp.buffer.msgs[t] != nil && bp.buffer.msgs[t][p] != nil ==> 0 <= bp.buffer.msgs[t][p].bufferBytes && bp.buffer.msgs[t][p].bufferBytes <= 2305843009213693952)
+//@   callsite produceSet.add: requires[admitted_or_empty_buffer] $recv == bp.buffer && $msg == msg && (!!(bp.buffer.bufferBytes + bsz(msg, ite(verAtLeast(bp.buffer.parent.conf.Version, V0_11_0_0), 2, 1)) < MaxRequestSize - 10240 && !(bp.buffer.msgs[msg.Topic] != nil && bp.buffer.msgs[msg.Topic][msg.Partition] != nil && bp.buffer.msgs[msg.Topic][msg.Partition].bufferBytes + bsz(msg, ite(verAtLeast(bp.buffer.parent.conf.Version, V0_11_0_0), 2, 1)) >= bp.buffer.parent.conf.Producer.MaxMessageBytes) && !(bp.buffer.parent.conf.Producer.Flush.MaxMessages > 0 && bp.buffer.bufferCount >= bp.buffer.parent.conf.Producer.Flush.MaxMessages)) || (bp.buffer.bufferCount == 0 && bp.buffer.bufferBytes == 0 && maplen(bp.buffer.msgs) == 0))
+//@   callsite brokerProducer.waitForSpace: requires[asks_for_this_message] $msg == msg
+// A-shape: the byte counters of the worker's buffer stay below 2^61 (they are bounded by MaxRequestSize in every
+// reachable state; the representation invariant of the produce set is not carried through this loop)
+//@   loop 0: assume bp.buffer != nil && 0 <= bp.buffer.bufferBytes && bp.buffer.bufferBytes <= 2305843009213693952 && (forall t string, p int32 :: bp.buffer.msgs[t] != nil && bp.buffer.msgs[t][p] != nil ==> 0 <= bp.buffer.msgs[t][p].bufferBytes && bp.buffer.msgs[t][p].bufferBytes <= 2305843009213693952)
+//@   loop 0: invariant bp.parent == old(bp.parent) && bp.parent.conf == old(bp.parent.conf) && bp.currentRetries != nil
+//@   nosafety
+
+// messages reaching a broker worker were admitted by the dispatcher and counted by the retry path (A-input bound)
+//@ channel brokerProducer.input m
+//@   recv ensures m == nil || (m.retries >= 0 && m.retries < 4611686018427387904 && 0 <= bsz(m, 1) && bsz(m, 1) <= 2305843009213693952 && 0 <= bsz(m, 2) && bsz(m, 2) <= 2305843009213693952 && len(m.Headers) <= 1048576 && forall i :: 0 <= i && i < len(m.Headers) ==> len(m.Headers[i].Key) <= 2147483648 && len(m.Headers[i].Value) <= 2147483648)
